@@ -1,0 +1,35 @@
+//go:build verif
+
+// Contracts (machine-checked by /verif/engine, see /verif/DESIGN.md). Comment-only file.
+package queue
+
+// ---- C14: play packets written during configuration are held back, bounded, FIFO -------------------------------
+// Queue: packets registered in the CONFIG state pass (not queued); others go to the BACK of the deque unless 1024
+// are already held, in which case the caller gets ErrQueueFull (an error, never a silent drop).
+//@ func (*PlayPacketQueue).Queue
+//@   props C14
+//@   at-call PacketID as reg: assert arg0 == h.registry && arg1 == packet
+//@   at-call Len as n: assert called(reg) && !res(reg, 1) && arg0 == h.queue
+//@   at-call PushBack as push: assert [bounded-and-play-only] called(n) && res(n) < 1024 && !res(reg, 1) && arg0 == h.queue && arg1 == packet
+//@   ensures [bound-is-1024] maxQueueLen == 1024
+//@   ensures [nil-queue-never-queues] h == nil ==> !result.0 && result.1 == nil && !called(push)
+//@   ensures [config-packets-pass] called(reg) && res(reg, 1) ==> !result.0 && result.1 == nil && !called(push)
+//@   ensures [play-packets-go-to-the-back] called(n) && res(n) < 1024 ==> called(push) && result.0 && result.1 == nil
+//@   ensures [full-queue-is-an-error-not-a-drop] called(n) && res(n) >= 1024 ==> !result.0 && result.1 != nil && result.1 == ErrQueueFull && !called(push)
+
+// ReleaseQueue: pops from the FRONT while the deque is non-empty and hands each popped packet to buffer, stops at the
+// first error, leaves the deque empty on success and flushes iff at least one packet was released.
+//@ func (*PlayPacketQueue).ReleaseQueue
+//@   props C14
+//@   loop 1: invariant ok ==> called(buf)
+//@   at-call Len as n: assert arg0 == h.queue
+//@   at-call PopFront as pop: assert [pop-only-while-non-empty] called(n) && res(n) != 0 && arg0 == h.queue
+//@   at-call dyn.buffer as buf: assert [released-in-pop-order] called(pop) && arg0 == res(pop)
+//@   at-call dyn.flush as fl: assert [flush-after-draining] called(n) && res(n) == 0 && called(buf)
+//@   ensures [nil-queue-releases-nothing] h == nil ==> result == nil && !called(buf) && !called(fl)
+//@   ensures [drained-or-error] h != nil ==> called(n) && ((result == nil ==> res(n) == 0) && (called(buf) && res(buf) != nil ==> result != nil))
+//@   ensures [flush-iff-something-was-released] h != nil && res(n) == 0 && called(buf) ==> called(fl) && result == res(fl)
+
+//@ func NewPlayPacketQueue
+//@   props C14
+//@   ensures [a-new-empty-queue-object] result != nil && fresh(result)
